@@ -40,3 +40,9 @@ func (pm *ProtocolManager) VerifConfirmCacheSize() int { return pm.confirmsCache
 
 // VerifBlockCache returns the manager's block cache.
 func (pm *ProtocolManager) VerifBlockCache() *BlockCache { return pm.blockCache }
+
+// VerifHandlePeer is ProtocolManager.handlePeer (protocol handshake, registration, handleMsg loop).
+func (pm *ProtocolManager) VerifHandlePeer(p *VerifPeer) { pm.handlePeer(p.p) }
+
+// VerifConfirmCache returns the manager's confirm cache.
+func (pm *ProtocolManager) VerifConfirmCache() *ConfirmCache { return pm.confirmsCache }
